@@ -368,22 +368,35 @@ def _visual_tables(ctx):
 
 def r2c(ctx):
     """every key a RegionVisual may hold reaches the artist under a name that artist accepts, or is dropped: as_artist must
-    return an artist for every region, whatever valid visual attributes it carries (e.g. after reading a CRTF file)."""
-    keymaps, removed, valid, g = _visual_tables(ctx)
+    return an artist for every region, whatever valid visual attributes it carries (e.g. after reading a CRTF file).
+    Decided by partially evaluating define_mpl_kwargs on a visual dictionary holding every valid key."""
+    from ..tb import class_tables
+    m = ctx.model
+    rv = m.cls('RegionVisual')
+    g = method_or_fail(ctx, rv, 'define_mpl_kwargs')
+    valid = class_tables(m, 'RegionVisual').get('valid_keys')
+    ctx.need(isinstance(valid, (list, tuple)) and len(valid) > 20, 'RegionVisual.valid_keys', 'not evaluable')
+    dflt = method_or_fail(ctx, rv, '_define_default_mpl_kwargs')
     for art in ('Patch', 'Line2D', 'Text'):
-        bad = []
-        for k in valid:
-            fk = keymaps.get(art, {}).get(k, k)
-            if fk in removed[art] or fk in MPL_KW[art]:
-                continue
-            bad.append((k, fk))
+        ev = Evaluator(m, hooks={dflt.qualname: lambda e, a, k: DictV([{}])})
+        data = {k: Const('v_' + k) for k in valid}
+        if 'default_style' in data:
+            data['default_style'] = Const('mpl')
+        self_ = Obj('RegionVisual', {'__data__': DictV([data])}, 'self', rv)
+        out = ev.run(g, [self_, Const(art)], {})
+        ctx.need(len(out.returns) == 1 and not out.raises and isinstance(out.returns[0][1], DictV)
+                 and not out.returns[0][1].has_symbolic(), f'{g.qualname}({art})',
+                 'keyword dictionary for a full visual dictionary not reducible')
+        got = out.returns[0][1]
+        bad = sorted(k for k in got.keys() if k not in MPL_KW[art])
         if bad:
+            src = {k: [v for v in valid if isinstance(got.get(k), Const) and got.get(k).v == 'v_' + v] for k in bad}
             ctx.bad(art, 'unaccepted-visual-keys',
-                    f'visual keys {[k for k, _ in bad]} are valid RegionVisual keys but reach matplotlib.{art} as '
-                    f'{sorted({fk for _, fk in bad})}, which it does not accept: as_artist raises for a region carrying them '
-                    "(e.g. any region parsed from a CRTF line with symsize=, labelcolor=, usetex=, ...)", g.loc())
+                    f'a region carrying every valid visual key hands matplotlib.{art} the keywords {bad} (from the visual keys '
+                    f'{sorted({v for vs in src.values() for v in vs})}), which it does not accept: as_artist raises for a region '
+                    "carrying them (e.g. any region parsed from a CRTF line with symsize=, labelcolor=, usetex=, ...)", g.loc())
         else:
-            ctx.ok(art, f'{len(valid)} visual keys: each is renamed to, or is, a keyword of the artist, or is dropped')
+            ctx.ok(art, f'{len(valid)} visual keys -> {sorted(got.keys())}: all keywords of the artist')
 
 
 RULES = [
